@@ -182,6 +182,8 @@ package mux
 //@ pred hdrsAllowedFold(c *cors, r *http.Request) = allowedFoldV(c.anyHeaders, acrhLines(r), c.AllowHeaders)
 // the preflight names exactly one method, and the route serves it
 //@ pred methodOK(node types.Node, r *http.Request) = len(hdrLines(r.Header.first, r.Header.all, "Access-Control-Request-Method")) <= 1 && inList(nodeMethods(node), reqMethod(r))
+// an OPTIONS request with more than one Access-Control-Request-Method line gets no CORS treatment at all
+//@ pred manyMethodLines(r *http.Request) = r.Method == "OPTIONS" && len(hdrLines(r.Header.first, r.Header.all, "Access-Control-Request-Method")) > 1
 //@ pred originOK(c *cors, r *http.Request) = c.anyOrigins || inList(c.Origins, reqOrigin(r))
 //@ pred hdrUnchanged(wh http.Header, f0 `(Array String String)`, a0 `(Array String (Array String Bool))`) = wh.first == f0 && wh.all == a0
 //
@@ -219,6 +221,7 @@ package mux
 // the paths served by the root node ("*" and the empty path) carry the server-wide method summary: never a preflight
 //@   ensures [C11] root-paths-are-not-preflights: (r.URL.Path == "" || r.URL.Path == "*") ==>
 //@        wh.first["Access-Control-Allow-Methods"] == old(wh.first["Access-Control-Allow-Methods"])
+//@   ensures [C11] several-method-lines: manyMethodLines(r) ==> hdrUnchanged(wh, old(wh.first), old(wh.all))
 //@   ensures [C11] preflight-method: isPreflight(r) && !methodOK(node, r) ==> hdrUnchanged(wh, old(wh.first), old(wh.all))
 //@   ensures [C11] preflight-header: isPreflight(r) && !hdrsAllowedFold(c, r) ==>
 //@        wh.first["Access-Control-Allow-Origin"] == old(wh.first)["Access-Control-Allow-Origin"] &&
@@ -226,13 +229,13 @@ package mux
 //@   ensures [C11] bad-origin: !originOK(c, r) ==>
 //@        wh.first["Access-Control-Allow-Origin"] == old(wh.first)["Access-Control-Allow-Origin"] &&
 //@        wh.first["Access-Control-Allow-Credentials"] == old(wh.first)["Access-Control-Allow-Credentials"]
-//@   ensures [C12] grant-origin: !c.deny && originOK(c, r) && (isPreflight(r) ==> methodOK(node, r) && hdrsAllowedFold(c, r)) ==>
+//@   ensures [C12] grant-origin: !c.deny && !manyMethodLines(r) && originOK(c, r) && (isPreflight(r) ==> methodOK(node, r) && hdrsAllowedFold(c, r)) ==>
 //@        wh.first["Access-Control-Allow-Origin"] == (c.anyOrigins ? "*" : reqOrigin(r)) &&
 //@        (c.AllowCredentials ==> wh.first["Access-Control-Allow-Credentials"] == "true") &&
 //@        (!c.AllowCredentials ==> wh.first["Access-Control-Allow-Credentials"] == old(wh.first)["Access-Control-Allow-Credentials"]) &&
 //@        (c.exposedHeadersString != "" ==> wh.first["Access-Control-Expose-Headers"] == c.exposedHeadersString) &&
 //@        (c.exposedHeadersString == "" ==> wh.first["Access-Control-Expose-Headers"] == old(wh.first)["Access-Control-Expose-Headers"])
-//@   ensures [C12] grant-preflight: !c.deny && originOK(c, r) && isPreflight(r) && methodOK(node, r) && hdrsAllowedFold(c, r) ==>
+//@   ensures [C12] grant-preflight: !c.deny && !manyMethodLines(r) && originOK(c, r) && isPreflight(r) && methodOK(node, r) && hdrsAllowedFold(c, r) ==>
 //@        wh.first["Access-Control-Allow-Methods"] == pure0("strings.Join", nodeMethods(node), ", ") &&
 //@        (c.allowHeadersString != "" ==> wh.first["Access-Control-Allow-Headers"] == c.allowHeadersString) &&
 //@        (c.maxAgeString != "" ==> wh.first["Access-Control-Max-Age"] == c.maxAgeString)
@@ -240,7 +243,7 @@ package mux
 //@        wh.first["Access-Control-Allow-Methods"] == old(wh.first)["Access-Control-Allow-Methods"] &&
 //@        wh.first["Access-Control-Allow-Headers"] == old(wh.first)["Access-Control-Allow-Headers"] &&
 //@        wh.first["Access-Control-Max-Age"] == old(wh.first)["Access-Control-Max-Age"]
-//@   ensures [C12] vary-origin: !c.deny && originOK(c, r) && (isPreflight(r) ==> methodOK(node, r) && hdrsAllowedFold(c, r)) ==>
+//@   ensures [C12] vary-origin: !c.deny && !manyMethodLines(r) && originOK(c, r) && (isPreflight(r) ==> methodOK(node, r) && hdrsAllowedFold(c, r)) ==>
 //@        (!c.anyOrigins ==> wh.all["Vary"]["Origin"])
 //@   ensures [C12] vary-preflight: !c.deny && isPreflight(r) && methodOK(node, r) ==> wh.all["Vary"]["Access-Control-Request-Method"]
 //@   ensures [C12] vary-headers: !c.deny && isPreflight(r) && methodOK(node, r) && hdrsAllowedFold(c, r) && c.allowHeadersString != "" ==>
@@ -560,7 +563,7 @@ package mux
 //@ fn lowerDomain
 //@   pure
 //@   nopanic
-//@   inv 1 [C05] scan: 0 <= i && 0 <= start && start <= i && i <= len(domain) && depth >= 0 && depth <= i
+//@   inv 1 [C05] scan: 0 <= i && 0 <= start && start <= i && i <= len(domain)
 
 // ---------------------------------------------------------------- group.go (C13, C16, C07)
 
@@ -730,7 +733,9 @@ package mux
 //@ fn Group.Routers
 //@   requires g != nil
 //@   nopanic
-//@   ensures [C13] the-list: result == g.routers
+//@   modifies alloc
+//@   ensures [C13] the-list: seqeq(result, g.routers)
+//@   ensures [C13,C07] own-copy: len(g.routers) > 0 ==> fresh(result)
 //@ fn Group.Router
 //@   requires g != nil && (forall k int :: 0 <= k && k < len(g.routers) ==> g.routers[k] != nil && g.routers[k].tree != nil)
 //@   inv 1 [C05] bound: -1 <= rangeindex && rangeindex < len(g.routers)
@@ -757,10 +762,10 @@ package mux
 //@   atcall mux.buildOption [C16,C13] all-options: arg0 == o
 //@   ensures [C16] recover-stored: result.recoverFunc == callresult("mux.buildOption", 1, 0).recoverFunc
 //@   ensures [C13] stored: fresh(result) && result.call == call && result.notFound == notFound && result.originNotFound == notFound &&
-//@        result.methodNotAllowedBuilder == methodNotAllowedBuilder && result.optionsBuilder == optionsBuilder && result.options == o && len(result.routers) == 0 && len(result.ms) == 0
+//@        result.methodNotAllowedBuilder == methodNotAllowedBuilder && result.optionsBuilder == optionsBuilder && seqeq(result.options, o) && len(result.routers) == 0 && len(result.ms) == 0
 //@ fn Group.Routes
 //@   requires g != nil && allSafe() && (forall k int :: 0 <= k && k < len(g.routers) ==> g.routers[k] != nil && routerTree(g.routers[k]))
-//@   inv 1 [C05] bound: -1 <= rangeindex && rangeindex < len(routers) && routers == g.routers && g.routers == old(g.routers) && allSafe() &&
+//@   inv 1 [C05] bound: -1 <= rangeindex && rangeindex < len(routers) && seqeq(routers, g.routers) && g.routers == old(g.routers) && allSafe() &&
 //@        (forall k int :: 0 <= k && k < len(g.routers) ==> g.routers[k] != nil && routerTree(g.routers[k]))
 
 // ---------------------------------------------------------------- instances own their interceptor tables (C07)
